@@ -47,20 +47,6 @@ Theorem C06_py_is_spec : forall g, forge_operation_group g = enc_group g.
 Proof. exact forge_operation_group_spec. Qed.
 Print Assumptions C06_py_is_spec.
 
-(* C06_py_is_spec is about groups whose Micheline values are given by their forged bytes, i.e. about canonical
-   Micheline JSON.  forge.py decides "no parameters" on the JSON spelling: for canonical JSON the two coincide ... *)
-Theorem C06_has_parameters_canonical_json : forall ep v,
-  has_parameters_json (Some (ep, v, bytes_eqb v unit_value)) = has_parameters (Some (ep, v)).
-Proof. reflexivity. Qed.
-Print Assumptions C06_has_parameters_canonical_json.
-
-(* ... but Unit spelled with an empty args/annots list (literal = false, same bytes 03 0b) is forged as explicit
-   default/Unit parameters where the canonical encoding omits them: known finding unit-spelled-with-empty-list *)
-Theorem C06_unit_spelling_refuted :
-  exists ep v, v = unit_value /\ has_parameters_json (Some (ep, v, false)) = true /\ norm_params (Some (ep, v)) = None.
-Proof. exists default_name, unit_value. repeat split. Qed.
-Print Assumptions C06_unit_spelling_refuted.
-
 Corollary C06_py_roundtrip : forall g, wf_group g -> dec_group (forge_operation_group g) = Some (norm_group g).
 Proof. intros g H. rewrite forge_operation_group_spec. apply dec_enc_group, H. Qed.
 Print Assumptions C06_py_roundtrip.
